@@ -221,6 +221,58 @@ def crec(seq, id="r", **kw):
     return CircularRecord(Seq(seq), id=id, name=kw.pop("name", id), **kw)
 
 
+def contained(seq, container, id="r"):
+    """a CircularRecord of `seq` in one of the containers a user may legitimately use"""
+    from Bio.Seq import MutableSeq
+    n = len(seq)
+    if container == "mutable":
+        return CircularRecord(MutableSeq(seq), id=id, name=id)
+    if container == "annotated":
+        return CircularRecord(Seq(seq), id=id, name=id, features=decorations(n), letter_annotations={"idx": list(range(n)), "txt": "x" * n},
+                              annotations={"topology": "circular", "molecule_type": "DNA", "keywords": ["k"]}, dbxrefs=["db:1"])
+    if container == "seq":
+        return crec(seq, id)
+    raise ValueError(container)
+
+
+CONTAINERS = ["seq", "mutable", "annotated"]
+
+
+def presentations(seq, id="r"):
+    """The same circular plasmid handed over in every legal way: -> [(name, record)].  The first one is the canonical
+    CircularRecord; the others differ in container class, sequence class, annotations and decorations only."""
+    from Bio.Seq import MutableSeq
+    from Bio.SeqRecord import SeqRecord
+    n = len(seq)
+    out = [("circular-record", crec(seq, id))]
+    out.append(("seqrecord-topology-circular", SeqRecord(Seq(seq), id=id, name=id, annotations={"topology": "circular"})))
+    out.append(("seqrecord-no-annotations", SeqRecord(Seq(seq), id=id, name=id)))
+    out.append(("circular-record-mutable-seq", CircularRecord(MutableSeq(seq), id=id, name=id)))
+    r = crec(seq, id)
+    r.annotations["topology"] = "CIRCULAR"
+    out.append(("circular-record-topology-upper", r))
+    r = CircularRecord(Seq(seq), id=id, name=id, features=decorations(n), letter_annotations={"idx": list(range(n))},
+                       annotations={"topology": "circular", "molecule_type": "DNA", "keywords": ["k"]}, dbxrefs=["db:1"])
+    out.append(("circular-record-annotated", r))
+    out.append(("circular-record-from-seqrecord", CircularRecord(SeqRecord(Seq(seq), id=id, name=id, annotations={"topology": "Circular"}))))
+    out.append(("seqrecord-topology-Circular", SeqRecord(Seq(seq), id=id, name=id, annotations={"topology": "Circular"})))
+    out.append(("seqrecord-topology-CIRCULAR-annotated", SeqRecord(Seq(seq), id=id, name=id, features=decorations(n), letter_annotations={"idx": list(range(n))},
+                                                                 annotations={"topology": "CIRCULAR", "molecule_type": "DNA"})))
+    return out
+
+
+def linear_presentations(seq, id="r"):
+    """The same text declared to be a linear molecule (only plain SeqRecords can say so): nothing may be read across its ends."""
+    from Bio.SeqRecord import SeqRecord
+    n = len(seq)
+    out = []
+    for spelling in ("linear", "Linear", "LINEAR"):
+        out.append(("seqrecord-topology-" + spelling, SeqRecord(Seq(seq), id=id, name=id, annotations={"topology": spelling})))
+    out.append(("seqrecord-topology-linear-annotated", SeqRecord(Seq(seq), id=id, name=id, features=decorations(n), letter_annotations={"idx": list(range(n))},
+                                                               annotations={"topology": "linear", "molecule_type": "DNA"})))
+    return out
+
+
 # ----------------------------------------------------------------------------------------
 # kit classes
 
